@@ -70,6 +70,10 @@ def run(case: dict, ctx) -> dict:
     # a DOCTYPE that declares no entity (and names no external subset) is an ordinary document
     harmless_dtd = cls in ("doctype-only", "doctype-empty-subset", "dtd-elements-only") and not ref
     returned_text = ""
+    # blanks (or a byte order mark) in front of the XML declaration, as in carved or hand-edited files: blanks make the
+    # document malformed - an entity-declaring one must be refused all the same, whichever way the parse error is handled
+    pidx = (case["lead"] * 3 + case["r"] + len(cls) + len(ep)) % 7
+    pre = ["", "", "", "\n", "  \r\n\t", " ", "\ufeff"][pidx] if declares_entity or pidx in (0, 1, 2, 6) else ""
     if ep == "ovf":
         from dissect.hypervisor.descriptor.ovf import OVF
 
@@ -78,6 +82,7 @@ def run(case: dict, ctx) -> dict:
             text = text.replace("<" + ("Info>disks" if "<Info>disks" in text else "x"), "<Info>" + ref + "disks", 1) if "<Info>disks" in text else text.replace(":Info>disks", ":Info>" + ref + "disks", 1)
             # also put the reference where disks() would return it
             text = text.replace('href="', 'href="' + ref, 1) if rng.random() < 0.5 else text
+        text = pre + text
         o = call(lambda: sorted(OVF(io.StringIO(text)).disks()))
     elif ep == "vbox":
         from dissect.hypervisor.descriptor.vbox import VBox
@@ -85,6 +90,7 @@ def run(case: dict, ctx) -> dict:
         text, must, maybe, never = w.gen_vbox(rng, doctype=dt, lead=lead)
         if ref:
             text = text.replace('location="', 'location="' + ref, 1) if 'location="' in text else text.replace("<Hardware", "<Description>" + ref + "</Description><Hardware", 1)
+        text = pre + text
         o = call(lambda: sorted(VBox(io.StringIO(text)).disks()))
         want = None
     elif ep == "pvs":
@@ -93,6 +99,7 @@ def run(case: dict, ctx) -> dict:
         text, want, never = w.gen_pvs(rng, doctype=dt, lead=lead)
         if ref:
             text = text.replace("<SystemName>", "<SystemName>" + ref, 1) if "<SystemName>" in text else text.replace("<VmName>", "<VmName>" + ref, 1)
+        text = pre + text
         o = call(lambda: sorted(PVS(io.StringIO(text)).disks()))
     else:
         from dissect.hypervisor.disk.hdd import HDD
@@ -101,7 +108,7 @@ def run(case: dict, ctx) -> dict:
         fn = "x.hds"
         body = whds.descriptor_xml([{"start": 0, "end": 8, "images": [{"guid": g, "type": "Plain", "file": fn}]}], [(g, whds.NULL_GUID)], doctype="")
         head, _, tail = body.partition("\n")
-        text = head + "\n" + lead + dt + "\n" + tail
+        text = pre + head + "\n" + lead + dt + "\n" + tail
         if ref:
             text = text.replace("<File>", "<File>" + ref, 1)
         enc = case["enc"]
